@@ -36,6 +36,7 @@ CLAIMED.update({
     "C15": ("exploration", "DESIGN.md 4/C15", H, "Set/get/del histories of INT/STR/BOOL/JSON with and without replace on builder headers/claims and on the jwt_t inside generate and verify callbacks; return codes, values and the whole-object snapshot compared with a typed-map model after every step; single allocation faults in a quarter of the runs.", "Model stores values as jansson trees; don't-care cells listed in DESIGN."),
     "C16": ("exploration", "DESIGN.md 4/C16", H + "; loads through faulty streams and torn files; LeakSanitizer batches", "Histories over two keyrings of loads, get, find_bykid, count, free at every position incl. out of range and SIZE_MAX, free_bad, free_all, error clear, recreate; both rings compared with a list model after every step; ASan for use-after-free/double free, live-block and LSan accounting for leaks.", "Generated keys carry a marker member telling the model whether the element is definitely good or definitely bad."),
     "C17": ("fault_enumeration", "DESIGN.md 4/C17", "deterministic simulation with fault injection: for each sampled scenario every allocator request index fails once (exhaustive sweep per scenario), compared op by op with the fault-free run", "Exhaustive over the allocation index per scenario (thorough adds 'every request from k on'); scenarios (loads of every key type through every entry point, keyring removals, builder/checker configuration, typed values, callbacks, generate, verify; both providers) are sampled. Same result or reported failure; never an abort, a wrong accept or an altered token.", "Two jansson 2.14 dependency defects (lexer and dumper drop bytes when a buffer growth fails) are listed as known findings and recognised only when jansson alone reproduces them; leaks under OOM are counted, not flagged."),
+    "C18": ("exploration", "DESIGN.md 4/C18", "deterministic simulation: real caller threads parked and released one at a time by a seeded scheduler at every allocator request and op boundary; same seeds under ASan/UBSan and under ThreadSanitizer with the scheduler handoffs excluded from happens-before", "2-4 threads with own builders/checkers sharing one keyring of every key type on either provider; per-op results equal the sequential execution (verdicts always, tokens for deterministic algorithms); ThreadSanitizer reports with a library frame; ASan/UBSan on the same seeds. Sampling of interleavings (hash of the choice sequence counted), not enumeration.", "Preemption only at allocator requests and op boundaries; races inside uninstrumented OpenSSL/GnuTLS/jansson are invisible; a TSan report without a libjwt frame is treated as a harness error."),
     "C19": ("exploration", "DESIGN.md 4/C19", H + "; callback-free twin oracle under the simulated clock", "Callback programs of header/claim set, replace, delete, delete-all biased to the claim the token fails on x claim-check configurations x tokens failing exactly one check at the simulated instant; verdict with the callback must equal the verdict without; non-zero return must fail; callback-selected inadmissible key/alg pairs must fail.", "Programs are sequences of the public jwt_header_*/jwt_claim_* calls only."),
 })
 
